@@ -73,6 +73,43 @@ def WF (d : EnvDef) : Prop := wfFields d.fs = true ∧ (namesOf d.fs).Nodup
 
 instance (d : EnvDef) : Decidable (WF d) := by unfold WF; infer_instance
 
+/-! ## Length references are to non-negative integer fields -/
+
+/-- names a field stores that can only ever hold a non-negative `int`: bit-fields, and unsigned integers
+with `offset ≥ 0` and `mult ≥ 0` -/
+def FDef.natNames : FDef → List String
+  | .int name _ _ _ signed offset mult => if signed = false ∧ 0 ≤ offset ∧ 0 ≤ mult then [name] else []
+  | .bits _ _ _ fs => fs.filterMap (·.name)
+  | _ => []
+
+def natNamesOf (fs : List FDef) : List String := fs.flatMap FDef.natNames
+
+/-- the field a length callback reads -/
+def LenD.refs : LenD → List String
+  | .ofField n => [n]
+  | .table n _ => [n]
+  | _ => []
+
+mutual
+/-- every length callback of the definition reads a field of its own envelope that can only hold a
+non-negative int (`S` = such names of the enclosing envelope) -/
+def refsOKField (S : List String) : FDef → Bool
+  | .int .. => true
+  | .bits .. => true
+  | .buf _ _ ld => ld.refs.all (S.contains ·)
+  | .spare _ _ ld _ => ld.refs.all (S.contains ·)
+  | .env _ _ ld _ fs => ld.refs.all (S.contains ·) && refsOKFields (natNamesOf fs) fs
+  | .seq _ _ ld item => ld.refs.all (S.contains ·) && refsOKFields (natNamesOf item) item
+def refsOKFields (S : List String) : List FDef → Bool
+  | [] => true
+  | f :: fs => refsOKField S f && refsOKFields S fs
+end
+
+/-- `RefsOK d` -/
+def RefsOK (d : EnvDef) : Prop := refsOKFields (natNamesOf d.fs) d.fs = true
+
+instance (d : EnvDef) : Decidable (RefsOK d) := by unfold RefsOK; infer_instance
+
 /-! ## In-range values and the declared length -/
 
 /-- `get_len` evaluated on a buffer of `L + rest` octets returns `L` -/
